@@ -367,6 +367,11 @@ def lean_table(o):
           '    RECEIVED was the visited node itself (same most-derived object) -- on every live node of the class that was observed,',
           '    redeclarations (nodes whose `master()` is another node) included. -/',
           'def handed : List (List Bool × List Bool) := [' + ', '.join('(%s, %s)' % (conj(sym, 'firedself', 'fired'), conj(sym, 'chainself', 'chain')) for sym in order) + ']', '',
+          '/-- For every row (same order as `rows`): the hooks entered (a) by a visit that follows a visit whose first hook RAISED (same visitor',
+          '    object, same node; only Classic and the sinks overridden), (b) by a visit one of whose hooks has the same visitor visit the same',
+          '    node again before it returns, (c) by a visitor overriding every hook: a visit whose hook raises, then a visit re-entered once. -/',
+          'def reentry : List (List Hook × List Hook × List Hook) := [' + ', '.join(
+              '(%s, %s, %s)' % (lhooks(o.rows[sym]['rechain']), lhooks(o.rows[sym]['nested']), lhooks(o.rows[sym]['refired'])) for sym in order) + ']', '',
           '/-- Category codes of the declaration kinds that were observed on a REDECLARATION as well (a node whose `master()` is another node). -/',
           'def redeclared : List Nat := ' + str(sorted({c for n in o.instances if n['remaster'] == '1' for c in n['dyn']})), '',
           '/-- Category codes of the declaration kinds that cannot be declared twice in a region (parameters, enumerators, base-class',
